@@ -20,8 +20,7 @@ from ..inline import flatten
 from ..loader import stmt_of
 from ..solver_model import Sweep, PARTITIONS, iter_partition
 
-TECHNIQUE = ('static analysis: pairing of append/remove on all paths of the decorative pass, argument-role check of the '
-             'token replacer call, derived-field refresh after store, exhaustiveness of partition consumers')
+TECHNIQUE = ('static analysis on the flattened reduction passes: append/remove pairing on all paths of the decorative pass, branch-outcome facts (CFG) for the alias guard and the reference scan, argument roles of the token replacer with temporaries resolved, must-pass-through of the token refresh, exhaustiveness of partition consumers')
 EXPLANATION = (
     'Reduction may only move an equation between partitions (never drop or duplicate one) and may only substitute an alias by '
     'its definition through the token-level replacer, in the right direction, in every equation, keeping the derived token '
